@@ -27,13 +27,14 @@ RULE = ('Configurations = writer (FileWriter suffix "" / ".json", PyFileWriter w
         'shape (empty, 1 byte, ASCII text, non-ASCII + lone surrogate, 64 KiB, 256 KiB) x module name (ASCII, '
         'hyphenated, non-ASCII) x comments; for each configuration every recorded call site (path.exists, makedirs, '
         'mkstemp, write, close, rename, py_compile.compile, access, unlink) is combined with every fault kind (OSError '
-        'EACCES / ENOSPC / EIO / EEXIST before the effect, close failing after the effect, short write of 0 / 1 / '
+        'EACCES / ENOSPC / EIO / EEXIST before the effect, the same error persisting over retries, close failing after the effect, short write of 0 / 1 / '
         'len/2 / len-1 bytes, PyCompileError / SyntaxError / OSError from py_compile). A faulted call is non-trivial '
         'when the fault is at or after mkstemp with an existing destination, or is a short write. Schedules: '
         'Hypothesis draws interleavings of two writers; non-trivial with >= 2 context switches between mkstemp and rename.')
 ASSUMPTIONS = [
     'a fault is injected before the real operation takes effect (plus "close fails after closing")',
-    'one fault per call; faults inside the error-handling path (a second failure) are outside the statement',
+    'one faulty step per call: it fails once, or (persistent kind) every time that same operation is retried; '
+    'failures of other operations inside the error-handling path (a second fault) are outside the statement',
     'leaked file descriptors are not claimed by the property',
     'concurrency is explored at system-call granularity under a harness-owned scheduler, not kernel preemption',
     'complete new content = the UTF-8 encoding pysmi.compat.encode gives the text (lone surrogates are dropped)',
@@ -64,7 +65,10 @@ class Recorder_(object):
         f = self.fault
         if f is not None and f.site_index == idx and not self.fired:
             self.fired = True
+            self.fired_name = name
             return f
+        if f is not None and f.kind == 'oserror-persistent' and self.fired and name == self.fired_name:
+            return f   # the faulty operation keeps failing however often it is retried
         return None
 
 
@@ -105,7 +109,7 @@ class OsProxy(object):
             r = _rec()
             f = r.enter(name) if r is not None else None
             if f is not None:
-                if f.kind == 'oserror':
+                if f.kind in ('oserror', 'oserror-persistent'):
                     raise _oserror(f.arg)
                 if f.kind == 'after-effect':
                     real(*a, **kw)
@@ -127,7 +131,7 @@ class TempfileProxy(object):
         def call(*a, **kw):
             r = _rec()
             f = r.enter('mkstemp') if r is not None else None
-            if f is not None and f.kind == 'oserror':
+            if f is not None and f.kind in ('oserror', 'oserror-persistent'):
                 raise _oserror(f.arg)
             return real(*a, **kw)
         return call
@@ -310,6 +314,8 @@ def fault_kinds(site, cfg):
     if site in ('makedirs', 'mkstemp', 'write', 'close', 'rename'):
         for code in (errno.EACCES, errno.ENOSPC, errno.EIO, errno.EEXIST):
             out.append(('oserror', code))
+        # the same step failing again when it is retried (EXDEV / EACCES do not go away): still one faulty step
+        out.append(('oserror-persistent', errno.EXDEV if site == 'rename' else errno.EACCES))
     if site == 'close':
         out.append(('after-effect', errno.EIO))
     if site == 'write':
